@@ -191,6 +191,16 @@ theorem C13_simple {c : Path} {tol : Rat} {out : Path}
   rw [h] at e; cases e
   exact simple_of_good hS hG g
 
+/-- what "two segments meet" means in `Spec.Simple` for segments in general position (none of the
+four endpoints collinear with the other segment): the closed segments have a common point
+`a + s(b−a) = c + t(d−c)` with `s, t ∈ [0,1]`. -/
+theorem C13_segsMeet_meaning (a b c d : Spec.P)
+    (h1 : Spec.orient a b c ≠ 0) (h2 : Spec.orient a b d ≠ 0)
+    (h3 : Spec.orient c d a ≠ 0) (h4 : Spec.orient c d b ≠ 0) :
+    Spec.segsMeet a b c d = true ↔
+      ∃ s t : Rat, 0 ≤ s ∧ s ≤ 1 ∧ 0 ≤ t ∧ t ≤ 1 ∧ Spec.segPoint a b s = Spec.segPoint c d t :=
+  segsMeet_iff a b c d h1 h2 h3 h4
+
 /-- **What the guard guarantees for every curve type** (rings and obstacle curves included, no
 general-position hypothesis): with the kept positions `is` of `C13_tolerance`, every output segment
 `c[a] – c[b]` that replaces at least one vertex (`a + 1 < b`) — the closing segment included — was
